@@ -592,7 +592,8 @@ pub async fn run_sender() {
     // per message: pre-settled (mixed only), settled by the peer before the probe
     let plan: Vec<(bool, bool, Out)> = (0..n).map(|i| (mixed && choice(3) == 0, choice(4) != 0, Out::draw(9500 + i as u64))).collect();
     let mms = pick(&[None, None, Some(120u64)]);
-    sim::set_config(format!("variant=retention-sender rcv-second={} mixed={} plan={:?} max-message-size={:?} {}", rcv_second, mixed, plan.iter().map(|(p, s, o)| format!("{}{}{:x}", if *p { "S" } else { "u" }, if *s { "+" } else { "-" }, out_code(o))).collect::<Vec<_>>(), mms, nd));
+    let report_in_attach = choice(2) == 1;
+    sim::set_config(format!("variant=retention-sender rcv-second={} mixed={} report-outcomes-in-resuming-attach={} plan={:?} max-message-size={:?} {}", rcv_second, mixed, report_in_attach, plan.iter().map(|(p, s, o)| format!("{}{}{:x}", if *p { "S" } else { "u" }, if *s { "+" } else { "-" }, out_code(o))).collect::<Vec<_>>(), mms, nd));
     sim::mark_nontrivial();
     let cvp = match peer::client_vs_peer(&ccfg, peer::open("peer", Some(65536), Some(255), None), nab, nba, Models::none()).await {
         Some(x) => x,
@@ -643,7 +644,11 @@ pub async fn run_sender() {
     let cmds: Slot<u32> = Slot::new();
     let done: Slot<Result<(), String>> = Slot::new();
     let results: Rc<RefCell<BTreeMap<usize, Result<Outcome, String>>>> = Rc::new(RefCell::new(BTreeMap::new()));
+    let late: Rc<RefCell<BTreeMap<usize, Result<Outcome, String>>>> = Rc::new(RefCell::new(BTreeMap::new()));
+    let late_done: Slot<()> = Slot::new();
     {
+        let late = late.clone();
+        let late_done = late_done.clone();
         let cmds = cmds.clone();
         let done = done.clone();
         let plan = plan.clone();
@@ -676,7 +681,7 @@ pub async fn run_sender() {
                         None => return,
                     }
                 } else {
-                    rest.push(f);
+                    rest.push((i, f));
                 }
             }
             done.put(Ok(()));
@@ -690,6 +695,20 @@ pub async fn run_sender() {
                 }
                 None => return,
             };
+            // the outcomes still outstanding are awaited by a task of their own: the peer may
+            // report them in the unsettled map of the attach that answers the resumption
+            {
+                let late = late.clone();
+                let late_done = late_done.clone();
+                let rest = std::mem::take(&mut rest);
+                sim::spawn("app-late-outcomes", async move {
+                    for (i, f) in rest {
+                        let r = f.await;
+                        late.borrow_mut().insert(i, r.map_err(|e| format!("{:?}", e)));
+                    }
+                    late_done.put(());
+                });
+            }
             let resumed = sim::op("resume", detached.resume()).await;
             match resumed {
                 Some(Ok(mut s)) => {
@@ -764,10 +783,19 @@ pub async fn run_sender() {
     }
     // the peer's dispositions for the subset it settles
     for (i, (pre, settle, out)) in plan.iter().enumerate() {
-        if *pre || !*settle {
+        if *pre {
             continue;
         }
         let (id, _, _) = got[i];
+        if !*settle {
+            // a delivery that stays outstanding may have a non-terminal state at the sender
+            // (delivery-tag 8 of the resumption table when the outcome is reported in the attach)
+            if report_in_attach && choice(3) == 0 {
+                peer.send(ps.channel, &peer::disposition(true, id, None, false, Some(peer::received_state(0, 0)))).await;
+                sim::probe("outstanding-delivery-with-non-terminal-state");
+            }
+            continue;
+        }
         peer.send(ps.channel, &peer::disposition(true, id, None, !rcv_second, Some(out.to_v()))).await;
     }
     {
@@ -922,6 +950,61 @@ pub async fn run_sender() {
             None => return,
         }
         cmds.put(4);
+    } else if report_in_attach {
+        // deliveries are outstanding and the receiving side has applied an outcome to each of them:
+        // it says so in the unsettled map of its attach (delivery-tag 3 of the resumption table).
+        // Every one of those sends resolves with that outcome; nothing needs to be sent again.
+        let mut args = AttachArgs::receiver(name, peer_handle);
+        args.rcv_settle_mode = Some(if rcv_second { 1 } else { 0 });
+        args.snd_settle_mode = Some(if mixed { 2 } else { 0 });
+        let mut m = Vec::new();
+        for (i, (pre, settle, out)) in plan.iter().enumerate() {
+            if !*pre && !*settle {
+                m.push((V::Bin(got[i].1.clone()), out.to_v()));
+            }
+        }
+        args.unsettled = V::Map(m);
+        peer.send(ps.channel, &peer::attach(&args)).await;
+        sim::fault("outcomes-reported-in-the-resuming-attach");
+        // the two sides then suspend and attach again until nothing is unsettled: answered in kind
+        let mut serve = Box::pin(serve_outcomes(&mut peer, &ps, name, peer_handle, rcv_second, mixed));
+        let mut ld = Box::pin(late_done.take());
+        let finished = std::future::poll_fn(|cx| {
+            use std::future::Future;
+            if ld.as_mut().poll(cx).is_ready() {
+                return std::task::Poll::Ready(true);
+            }
+            if serve.as_mut().poll(cx).is_ready() {
+                return std::task::Poll::Ready(false);
+            }
+            std::task::Poll::Pending
+        })
+        .await;
+        drop(serve);
+        if !finished {
+            sim::violation(
+                "outcome-reported-on-resumption-never-resolved",
+                format!("the receiver listed its outcomes for the outstanding deliveries in the attach that answered the resumption; after 120 virtual seconds the sends have resolved as {:?}", late.borrow()),
+            );
+            return;
+        }
+        for (i, (pre, settle, out)) in plan.iter().enumerate() {
+            if *pre || *settle {
+                continue;
+            }
+            match late.borrow().get(&i) {
+                Some(Ok(o)) if out.matches(o) => sim::probe("outcome-learnt-on-resumption"),
+                other => {
+                    sim::violation(
+                        "wrong-outcome",
+                        format!("send #{} was outstanding when the link was resumed; the receiver's attach lists its delivery with {:?}; the send resolved with {:?}", i, out, other),
+                    );
+                    return;
+                }
+            }
+        }
+        peer.send(0, &peer::close(Some(peer::error("amqp:not-implemented", Some("that will do"))))).await;
+        let _ = sim::op("application resumes (connection closed by the peer)", done.take()).await;
     } else {
         // deliveries are outstanding: what resumption does with them is not C02's business (the
         // crate resends them, detaches and attaches again); the peer ends the conversation here
@@ -933,4 +1016,33 @@ pub async fn run_sender() {
         let _ = tokio::time::timeout(std::time::Duration::from_secs(20), client.close()).await;
     };
     let _ = world::join2(td, peer::serve_teardown(&mut peer, 30_000)).await;
+}
+
+/// The receiving side of a resumption that goes through several rounds: every detach is answered
+/// in kind, every attach with an attach whose unsettled map is empty; gives up after 120 virtual s
+async fn serve_outcomes(peer: &mut Peer, ps: &PeerSession, name: &str, peer_handle: u32, rcv_second: bool, mixed: bool) {
+    let deadline = tokio::time::Instant::now() + std::time::Duration::from_secs(120);
+    loop {
+        let left = deadline.saturating_duration_since(tokio::time::Instant::now());
+        if left.is_zero() {
+            break;
+        }
+        match tokio::time::timeout(left, peer.recv()).await {
+            Ok(Some(crate::wire::Item::Frame(f))) => match f.code {
+                wire::DETACH => {
+                    let closed = f.perf.as_ref().unwrap().field(1).as_bool().unwrap_or(false);
+                    peer.send(ps.channel, &peer::detach(peer_handle, closed, None)).await;
+                }
+                wire::ATTACH => {
+                    let mut args = AttachArgs::receiver(name, peer_handle);
+                    args.rcv_settle_mode = Some(if rcv_second { 1 } else { 0 });
+                    args.snd_settle_mode = Some(if mixed { 2 } else { 0 });
+                    peer.send(ps.channel, &peer::attach(&args)).await;
+                }
+                _ => {}
+            },
+            Ok(Some(_)) => {}
+            _ => break,
+        }
+    }
 }
